@@ -1,4 +1,5 @@
-"""C05 xtl::variant: history explorer (E2) over two variants x every throw point, std::variant in lock-step."""
+"""C05 xtl::variant: history explorer (E2) over two variants x every throw point, std::variant in lock-step; wide / relational / multi-visit /
+aliasing-source / greedy-alternative parts (see NOTES.md)."""
 import os
 import vlib
 
@@ -36,6 +37,32 @@ def relvisit_plan(tier):
     return [(70, False, []), (130, False, ["--part", "visit"]), (40, True, ["--part", "visit"])]
 
 
+ALIAS = os.path.join(HERE, "alias.cpp")
+# classes of the element type E by (copy noexcept?, move noexcept?): 0 = (yes, yes), 1 = (no, yes) std::string-like, 2 = (no, no), 3 = (yes, no)
+ALIAS_ECLS = (0, 1, 2, 3)
+# classes of the greedy alternative G: 0 = converting constructor and copy may throw, move noexcept (std::any-like), 1 = everything noexcept, 2 = everything may throw
+GREEDY_GCLS = (0, 1, 2)
+
+
+def build_alias(ecls):
+    return vlib.compile_cxx(ALIAS, "c05-alias-e%d" % ecls, std="c++17", opt="-O1", san="asan-only", defines=["ECLS=%d" % ecls, "PART=1"])
+
+
+def build_greedy(ecls, gcls):
+    return vlib.compile_cxx(ALIAS, "c05-greedy-e%d-g%d" % (ecls, gcls), std="c++17", opt="-O1", san="asan-only", defines=["ECLS=%d" % ecls, "PART=2", "GCLS=%d" % gcls])
+
+
+def alias_plan(tier):
+    """[(builder, harness args, tag)]: the aliasing part for every class of E (tree depth 2 quick / 4 thorough); the greedy part for
+    every class of G x the throwing-copy classes of E (quick) / every class of E and 9 instead of 6 operand states (thorough)"""
+    deep = tier != "quick"
+    pl = [((lambda c=c: build_alias(c)), ["--depth", "4" if deep else "2"], "alias-e%d" % c) for c in ALIAS_ECLS]
+    for c in (ALIAS_ECLS if deep else (1, 2)):
+        for g in GREEDY_GCLS:
+            pl.append(((lambda c=c, g=g: build_greedy(c, g)), ["--deep"] if deep else [], "greedy-e%d-g%d" % (c, g)))
+    return pl
+
+
 def plan(tier):
     # (six alternatives?, number of variants, extra args)
     if tier == "quick":
@@ -46,12 +73,16 @@ def plan(tier):
 def run(ctx):
     pl = plan(ctx.tier)
     rv = relvisit_plan(ctx.tier)
-    built = vlib.parallel([(lambda p=p: build(p[0], p[1])) for p in pl] + [(lambda r=r: build_relvisit(r[0], r[1])) for r in rv] + [lambda: build_wide(ctx.tier != "quick")])
+    ap = alias_plan(ctx.tier)
+    built = vlib.parallel([(lambda p=p: build(p[0], p[1])) for p in pl] + [(lambda r=r: build_relvisit(r[0], r[1])) for r in rv] + [lambda: build_wide(ctx.tier != "quick")] + [a[0] for a in ap])
+    bal = built[-len(ap):]
+    built = built[:-len(ap)]
     bins, brv, bw = built[:len(pl)], built[len(pl):-1], built[-1]
     dl = str(int(max(60, ctx.time_left() - 30)))
     ctx.run_harness(bw, [], tag="wide")
     for b, r in zip(brv, rv):
         ctx.run_harness(b, r[2], tag="relvisit%d%s" % (r[0], "mm" if r[1] else ""))
+    vlib.parallel([(lambda b=b, a=a: ctx.run_harness(b, a[1], tag=a[2])) for b, a in zip(bal, ap)])
     vlib.parallel([(lambda b=b, p=p: ctx.run_harness(b, p[2] + ["--deadline", dl], tag="altT" if p[0] == "T" else "altA" if p[0] == "A" else "altM" if p[0] == "M" else ("alt6" if p[0] else "alt4"))) for b, p in zip(bins, pl)])
     ctx.stats["evaluations"] = ctx.stats.get("transitions", 0)
     ctx.stats["distinct_nontrivial"] = ctx.stats.get("states", 0)
@@ -61,15 +92,36 @@ def run(ctx):
                 "copy/move assignment incl. self, member and free swap incl. self, copy/move construction into a temporary and in place, recreate. FAULTS: each operation in each state unfaulted (counting K throw points) "
                 "and then with the k-th throwing for every k=1..K. Oracle: fault-free = hand model cross-checked with std::variant in lock-step; faulted = the statement's rule (valueless or a fully constructed alternative "
                 "that existed in an operand before or was requested; uninvolved variants unchanged); lifetime registry + ASan/LSan; in every new state index/valueless/holds_alternative/get/get_if/xget for every alternative, "
-                "all 6 relational operators on all ordered pairs, visit over 1, 2 and 3 variants. distinct_nontrivial = distinct world states")
+                "all 6 relational operators on all ordered pairs, visit over 1, 2 and 3 variants. distinct_nontrivial = distinct world states. "
+                "ALIASING part (alias.cpp, PART=1): the source of an assignment / emplace lives INSIDE the variant assigned to (or the target inside the source): one tree root = variant<E, Rec{E e;}, Box{variant* child;}>, "
+                "every shape B^d.{E,Rec,valueless} with d <= 2 (quick) / 4 (thorough) x EVERY variant node as target x EVERY node (variant, held alternative, member of the held alternative) as source x {lvalue, const lvalue, rvalue} x "
+                "{operator=, emplace<I>, emplace<T>} x the four classes of E by (copy noexcept?, move noexcept?) incl. throwing copy + noexcept move (std::string-like), each on a fresh tree, unfaulted and with the k-th throw point "
+                "(copy/move of E, copy of Box) throwing for every k; not enumerated: an rvalue source that contains the target. Oracle: the same statement on the same tree of libstdc++ std::variant + the lifetime registry "
+                "(the element types consult the registry before they touch their source). A case in which std::variant ITSELF constructs from a destroyed object ([variant.assign]/[variant.mod] destroy first for that type class: the "
+                "aliasing argument is the caller's error) is counted as outside the contract and not judged (alias_cases_outside_contract_not_judged); in every other case xtl must not touch a destroyed object, must end with "
+                "the same tree (index, values, moved-from marks at every node), accessors of every node agree, lifetimes balance; after a throw the target is valueless or holds what it or the source held before. "
+                "GREEDY part (alias.cpp, PART=2): alternative sets with a type G whose templated converting constructor accepts anything INCLUDING THE VARIANT (std::any-like), G at every position "
+                "(variant<G,int,E>, <int,G,E>, <int,E,G>) x three classes of G (converting ctor/copy may throw + move noexcept; all noexcept; all may throw) x classes of E (quick: the two with a throwing copy; thorough: all four) x "
+                "all ordered pairs of 6 (thorough 9) operand states (int, E, G made from int, G made from E, valueless, G made from a variant on explicit request) x 38 statements: a = b with b non-const lvalue / const lvalue / rvalue, "
+                "the three self-assignments, copy/move construction from non-const lvalue / const lvalue / rvalue, converting assignment and converting construction from an lvalue / const lvalue / rvalue of each alternative type, "
+                "member and free swap, emplace<G> / emplace<index of G> / in_place_type<G> construction from a variant; unfaulted and with every throw point. Oracle: std::variant in lock-step (index(), the held value and which "
+                "kind of argument G was made from, for a, b and the constructed c; visit over (a,b)), [variant.swap] written out for swap; index()/holds_alternative/get/get_if/visit over one and two variants agree; "
+                "lifetime registry; after a throw every operand is valueless or holds what an operand held before or what was requested")
     ctx.assumptions += [
         "relational operator semantics are hand-coded from [variant.relops]; fault-free alternative/value semantics are cross-checked against libstdc++ std::variant",
         "MPARK_VARIANT_SWITCH_VISIT is defined in every supported configuration, so the table-based visitation dispatcher is dead code and cannot be reached by any execution",
         "throw points are the copy/move constructors and assignments of TH; constructors from int never throw",
+        "aliasing part: whether a self-aliasing statement is inside the contract is decided by executing it on libstdc++'s std::variant (it is outside when std::variant itself constructs from an object it has already destroyed); an rvalue source that contains the target (moving an object into its own sub-object) is not enumerated; child variants of the tree live in an arena that is recycled only between cases, so out-of-contract runs of std::variant never touch freed memory and ASan is not the oracle there (the registry is)",
+        "greedy part: swap is judged against [variant.swap] written out, not against std::variant, because libstdc++ 12 leaves the non-valueless operand unchanged when the other operand is valueless; converting assignment/construction is only enumerated from objects whose type IS an alternative (no arithmetic conversions, where libstdc++ implements P0608 and mpark::variant does not)",
     ]
 
 
 def replay(ctx, rec):
+    if rec["args"] and rec["args"][0] in ("--alias", "--greedy"):
+        # case id "e<class of E>|<class of G>|..." names the binary
+        f = rec["args"][1].split("|")
+        ctx.run_harness(build_alias(int(f[0][1:])) if rec["args"][0] == "--alias" else build_greedy(int(f[0][1:]), int(f[1])), rec["args"], tag="alias")
+        return
     if rec["args"] and rec["args"][0] == "--part":
         ctx.run_harness(build_relvisit(), rec["args"], tag="relvisit")
         return
